@@ -17,7 +17,7 @@ from apt_mirror.repository import PackagesParser, SourcesParser
 
 EXPECTED = ["C09_prefix_exact", "C09_continuation_inert", "C09_filter_spec", "C09_ignore_exact", "C09_blank_flushes", "C09_blank_skips",
             "C09_final_flush", "C09_packages_refines", "C09_packages_empty", "C09_package_is_field",
-            "C09_sources_refines", "C09_sources_flush", "C09_splitLines_render"]
+            "C09_sources_refines", "C09_sources_flush", "C09_splitLines_render", "C09_packages_several_indices"]
 LEVEL = "proof"
 RULE = ("index = 0-12 stanzas from the Debian control-file grammar: random field order, multi-line fields (Description, "
         "Depends continuation), optional fields, extra fields whose names are prefixes/extensions of the interesting ones "
@@ -238,7 +238,7 @@ def check_one(chk, sseed, big=False):
         files = cls(Path(top), {rel}, set(ignored), pf).parse()
         real = sorted((parts(f.path), f.size, bool(f.ignore_errors)) for f in files)
         real_err = None
-        if kind == "packages" and files:
+        if files:
             # the queue entries themselves (from_path / add_compression_variant glue) against Index.poolDFile
             from core.realdl import dfile_json
             rq = sorted((json.dumps(strip_hashes(dfile_json(f)), sort_keys=True) for f in files))
